@@ -11,6 +11,8 @@ from axolotl.protocol.whispermessage import WhisperMessage
 from axolotl.state.prekeybundle import PreKeyBundle
 from axolotl.untrustedidentityexception import UntrustedIdentityException
 from axolotl.invalidmessageexception import InvalidMessageException
+from axolotl.invalidversionexception import InvalidVersionException
+from google.protobuf.message import DecodeError
 from axolotl.duplicatemessagexception import DuplicateMessageException
 from axolotl.invalidkeyidexception import InvalidKeyIdException
 from axolotl.nosessionexception import NoSessionException
@@ -164,15 +166,15 @@ class AxolotlManager(object):
 
     def decrypt_pkmsg(self, senderid, data, unpad):
         logger.debug("decrypt_pkmsg(senderid=%s, data=(omitted), unpad=%s)" % (senderid, unpad))
-        pkmsg = PreKeyWhisperMessage(serialized=data)
         try:
+            pkmsg = PreKeyWhisperMessage(serialized=data)
             plaintext = self._get_session_cipher(senderid).decryptPkmsg(pkmsg)
             return self._unpad(plaintext) if unpad else plaintext
         except NoSessionException:
             raise exceptions.NoSessionException()
         except InvalidKeyIdException:
             raise exceptions.InvalidKeyIdException()
-        except InvalidMessageException:
+        except (InvalidMessageException, InvalidVersionException, DecodeError):
             raise exceptions.InvalidMessageException()
         except DuplicateMessageException:
             raise exceptions.DuplicateMessageException()
@@ -180,8 +182,8 @@ class AxolotlManager(object):
 
     def decrypt_msg(self, senderid, data, unpad):
         logger.debug("decrypt_msg(senderid=%s, data=[omitted], unpad=%s)" % (senderid, unpad))
-        msg = WhisperMessage(serialized=data)
         try:
+            msg = WhisperMessage(serialized=data)
             plaintext = self._get_session_cipher(senderid).decryptMsg(msg)
 
             return self._unpad(plaintext) if unpad else plaintext
@@ -189,7 +191,7 @@ class AxolotlManager(object):
             raise exceptions.NoSessionException()
         except InvalidKeyIdException:
             raise exceptions.InvalidKeyIdException()
-        except InvalidMessageException:
+        except (InvalidMessageException, InvalidVersionException, DecodeError):
             raise exceptions.InvalidMessageException()
         except DuplicateMessageException:
             raise exceptions.DuplicateMessageException()
